@@ -197,10 +197,10 @@ def quoted(v):
 
 PKGS = [("acme.lib.v1", "acme/lib/v1", "lib_v1"), ("acme.lib.v1", "acme/lib/v1", "lib_v1"),
         ("acme.books.v2beta1", "acme/books/v2beta1", "books_v2beta1"), ("shop.catalog.v3", "shop/catalog/v3", "catalog_v3")]
-SVC_NAMES = ["Library", "Archive", "Catalog", "Registry", "FrontDesk"]
+SVC_NAMES = ["Library", "Archive", "Catalog", "Registry", "FrontDesk", "IAMAdmin", "Books2", "DataAPIv2"]
 HOSTS = ["lib.example.com", "books.example.com", "library-prod.example.com", "x.y.example.org"]
 VERBS = ["Get", "Create", "Update", "Delete", "Search", "Move", "Analyze", "Export", "Undelete", "Check", "Render", "Sync"]
-NOUNS = ["Book", "Shelf", "Item", "Widget", "Report", "Job", "Note", "Ledger"]
+NOUNS = ["Book", "Shelf", "Item", "Widget", "Report", "Job", "Note", "Ledger", "IAMPolicy", "URL", "B2BOrder", "Shelf2"]
 FIELD_NAMES = ["name", "parent", "title", "filter", "count", "mode", "labels_csv", "payload", "request", "customer",
                "kind_of", "type_url", "page", "response", "stream", "etag", "force", "ratio", "data", "f", "operation"]
 # field names the generator renames (`class` -> `class_`, C12's subject) are kept out of this profile
@@ -370,7 +370,7 @@ def gen_api(r, idx, transport=None, twists=0.0, n_methods=None):
             if rest_only and form in ("client_stream", "bidi"):
                 form = "unary"      # the REST transport has no client streaming (NotImplementedError by design)
             for _t in range(20):
-                rpc_name = r.pick(VERBS) + r.pick(NOUNS) + (r.pick(["", "s", "Async", "V2"]) if r.maybe(0.3) else "")
+                rpc_name = r.pick(VERBS) + r.pick(NOUNS) + (r.pick(["", "s", "Async", "V2", "2", "ByID", "ForHTTP2", "V2Beta"]) if r.maybe(0.35) else "")
                 if form == "paged":
                     rpc_name = "List" + r.pick(NOUNS) + "s"
                 if rpc_name not in seen_rpc:
@@ -420,6 +420,15 @@ def gen_api(r, idx, transport=None, twists=0.0, n_methods=None):
             me["ss"] = form in ("server_stream", "bidi")
             if transport != "grpc" and not me["cs"]:
                 me["http"] = ["post", f"/v1/{sname.lower()}:{rpc_name[0].lower() + rpc_name[1:]}", "*"]
+                # a path variable bound to a required top-level string field, with a pattern its mock value (`<name>_value`) matches
+                pv = [f["name"] for f in (fields if form != "foreign" else []) if f.get("required") and f.get("type") == "string"
+                      and not f.get("repeated") and not f.get("oneof") and not f.get("optional")]
+                if pv and r.maybe(0.5):
+                    var = r.pick(pv)
+                    me["http"] = [r.pick(["post", "post", "get", "delete"]), f"/v1/{sname.lower()}/" + r.pick(["{%s}", "{%s=*}", "{%s=**}"]) % var
+                                  + f":{rpc_name[0].lower() + rpc_name[1:]}"]
+                    if me["http"][0] == "post":
+                        me["http"].append("*")
             svc["methods"].append(me)
         main["services"].append(svc)
     return {"label": f"api{idx}", "package": pkg, "params": f"transport={transport}", "files": [shared, main]}
@@ -624,6 +633,66 @@ def t2_segments(ctx, texts, label):
                          {"text": t})
 
 
+def t2_raw_renders(ctx, spec, api, opts, out_files, entries, payload):
+    """re-render every autogenerated spec with the real generate_sample (the statements of
+    Generator._generate_samples_and_manifest), then: real fix_whitespace(raw) == emitted file; the machine-translated
+    fix_whitespace (driver op `fn`) == emitted file; model segments on the RAW lines == emitted metadata; line kinds
+    of raw and emitted agree (the hypothesis of `segments_depend_only_on_kinds`)."""
+    from gapic.samplegen import samplegen
+    from gapic.generator import generator as gmod, formatter
+    import gapic.utils as gu
+    try:
+        g = gmod.Generator(opts)
+        tname = next(t for t in g._env.loader.list_templates() if os.path.basename(t) == samplegen.DEFAULT_TEMPLATE_NAME)
+        template = g._env.get_template(tname)
+        specs = list(samplegen.generate_sample_specs(api, opts=opts))
+    except BaseException as e:  # noqa
+        ctx.disagree("T2:c14.raw-render", f"could not set up re-rendering: {type(e).__name__}: {e}", payload)
+        return
+    by_tag = {e.get("regionTag"): e for e in entries}
+    ops, metas = [], []
+    for sp in specs:
+        sp = dict(sp)
+        sp["id"] = sp["region_tag"]
+        e = by_tag.get(sp["region_tag"])
+        path = f"{SDIR}/{gu.to_snake_case(sp['id'])}.py"
+        if e is None or path not in out_files:
+            continue
+        try:
+            raw, _ = samplegen.generate_sample(sp, api, template)
+        except BaseException as ex:  # noqa
+            ctx.disagree("T2:c14.raw-render", f"{sp['region_tag']}: generate_sample raised {type(ex).__name__}: {ex}", payload)
+            continue
+        emitted = out_files[path]
+        if formatter.fix_whitespace(raw) != emitted:
+            ctx.disagree("T2:c14.raw-render", f"{sp['region_tag']}: fix_whitespace(re-rendered sample) is not the emitted file", payload)
+            continue
+        ops += [{"op": "fn", "name": "fix_whitespace", "args": [raw]},
+                {"op": "c14.segments", "lines": raw.splitlines(keepends=True)},
+                {"op": "c14.segments", "lines": emitted.splitlines(keepends=True)}]
+        metas.append((sp, e, emitted))
+    res = ctx.driver.ask(ops)
+    for k, (sp, e, emitted) in enumerate(metas):
+        fw, sraw, semit = res[3 * k], res[3 * k + 1], res[3 * k + 2]
+        pl = {**payload, "file": e.get("file")}
+        ctx.traces += 3
+        if fw.get("r") != emitted:
+            ctx.disagree("T2:c14.fix_whitespace-on-sample", f"{e.get('file')}: translated fix_whitespace(raw) differs from the emitted file", pl)
+        segs = {s_.get("type"): [s_.get("start", 0), s_.get("end", 0)] for s_ in e.get("segments", [])}
+        impl = [segs.get(n, [0, 0]) for n in SEG_NAMES]
+        if sraw.get("segments") != impl:
+            ctx.disagree("T2:c14.segments-on-raw-render", f"{e.get('file')}: model on the raw render {sraw.get('segments')} vs metadata {impl}", pl)
+        kr = [x for x in sraw.get("kinds", []) if x != "other"]
+        ke = [x for x in semit.get("kinds", []) if x != "other"]
+        if sraw.get("kinds") != semit.get("kinds"):
+            ctx.count("raw_vs_emitted", "line kinds differ" if kr == ke else "marker kinds differ")
+            ctx.disagree("T3:c14.raw-vs-emitted-kinds", f"{e.get('file')}: fix_whitespace changed the line structure of the sample "
+                         f"({len(sraw.get('kinds', []))} raw lines, {len(semit.get('kinds', []))} emitted): the metadata's line numbers "
+                         f"are those of the raw render", pl)
+        else:
+            ctx.count("raw_vs_emitted", "same line kinds")
+
+
 WS = [" ", "\t", " ", " ", "\x1f", "  ", "    "]
 
 
@@ -754,6 +823,17 @@ def sample_assigned_paths(text):
             for sub in seen_attrs.get(kw.value.id, ()):
                 paths.add((kw.arg,) + sub)
     return paths
+
+
+def sample_called_methods(text):
+    """names of the methods the sample calls on its `client` variable (AST)"""
+    import ast
+    try:
+        tree = ast.parse(text)
+    except SyntaxError:
+        return None
+    return [n.func.attr for n in ast.walk(tree) if isinstance(n, ast.Call) and isinstance(n.func, ast.Attribute)
+            and isinstance(n.func.value, ast.Name) and n.func.value.id == "client"]
 
 
 def oneof_member_counts(facts, full, paths, where=""):
@@ -920,7 +1000,10 @@ def run_api(ctx, r, spec, label):
                        ("REQUEST_EXECUTION", "# Make the request"), ("RESPONSE_HANDLING", "# Handle the response")]
             bad = []
             prev_end = None
+            has_handle = any(l.strip() == "# Handle the response" for l in lines)
             for name, comment in markers:
+                if name == "RESPONSE_HANDLING" and not has_handle and name not in segs:
+                    continue        # nothing to describe: a sample without response handling may omit the segment
                 st, en = segs.get(name, (0, 0))
                 if not (1 <= st <= en <= len(lines)):
                     bad.append(f"{name} [{st},{en}] is not a line range of the {len(lines)}-line file")
@@ -932,11 +1015,10 @@ def run_api(ctx, r, spec, label):
                     bad.append(f"{name} starts at {st}, previous segment ends at {prev_end}")
                 prev_end = en
             if bad:
-                has_handle = any(l.strip() == "# Handle the response" for l in lines)
                 only_void = (not has_handle and void and all(b.startswith(("REQUEST_EXECUTION", "RESPONSE_HANDLING")) for b in bad))
                 ctx.fail("void-sample-segments" if only_void else "segments", f"{e.get('file')}: " + "; ".join(bad), pl)
             seg_ops.append({"op": "c14.segments", "lines": lines})
-            seg_meta.append((e, pl, segs, lines, starts, ends))
+            seg_meta.append((e, pl, segs, lines, starts, ends, me))
             # compile
             try:
                 compile(text, e.get("file"), "exec")
@@ -962,6 +1044,10 @@ def run_api(ctx, r, spec, label):
                     if len(members) > 1:
                         ctx.fail(f"oneof-members-populated:{len(members)}",
                                  f"{e.get('file')}: the sample assigns {len(members)} members {members} of oneof {opath} of {root_in}", pl)
+            called = sample_called_methods(text)
+            if called != [e.get("clientMethod", {}).get("shortName")]:
+                ctx.fail("sample-calls-other-method", f"{e.get('file')}: the sample calls client.{called}, the metadata names "
+                         f"{e.get('clientMethod', {}).get('shortName')!r}", pl)
             fnames = re.findall(r"^(?:async )?def (sample_\w+)\(", text, re.M)
             if len(fnames) != 1:
                 ctx.fail("sample-function", f"{e.get('file')}: sample functions {fnames}", pl)
@@ -981,7 +1067,7 @@ def run_api(ctx, r, spec, label):
     # ---------------- T3 correspondence: segments / full snippet (model on the emitted file vs emitted metadata)
     fulls = {}
     if seg_ops:
-        for (e, pl, segs, lines, starts, ends), mo in zip(seg_meta, ctx.driver.ask(seg_ops)):
+        for (e, pl, segs, lines, starts, ends, me), mo in zip(seg_meta, ctx.driver.ask(seg_ops)):
             ctx.traces += 1
             impl = [list(segs.get(n, (0, 0))) for n in SEG_NAMES]
             if mo.get("segments") != impl:
@@ -991,6 +1077,41 @@ def run_api(ctx, r, spec, label):
                 between = "".join(lines[starts[0]:ends[0] - 1])
                 if mo.get("full") != between:
                     ctx.disagree("T3:c14.full-snippet", f"{e.get('file')}: model full snippet differs from the text between the tags", pl)
+    # ---------------- T3 correspondence: ids, file / function / method names, parameter names (model ops c14.names, c14.params)
+    if seg_meta:
+        all_tags = sorted(want.values())
+        nops = []
+        for (e, pl, segs, lines, starts, ends, me) in seg_meta:
+            tag = e.get("regionTag") or ""
+            m = re.match(r"# \[START (.*)\]\s*$", lines[starts[0] - 1]) if len(starts) == 1 else None
+            ftag = m.group(1) if m else None
+            h = ftag[len(tag) + 1:] if ftag and ftag.startswith(tag + "_") else ""
+            nops.append({"op": "c14.names", "tags": all_tags, "tag": tag, "hash": h, "rpc": me["name"], "internal": False})
+            flat = me["sigs"][0].split(",") if me.get("sigs") and not me.get("cs") else []
+            nops.append({"op": "c14.params", "cs": bool(me.get("cs")), "input_type": "T", "flattened": [[n, "t"] for n in flat]})
+        nres = ctx.driver.ask(nops)
+        for k, (e, pl, segs, lines, starts, ends, me) in enumerate(seg_meta):
+            mo, mp = nres[2 * k], nres[2 * k + 1]
+            text = "".join(lines)
+            m = re.match(r"# \[START (.*)\]\s*$", lines[starts[0] - 1]) if len(starts) == 1 else None
+            fn = re.findall(r"^(?:async )?def (sample_\w+)\(", text, re.M)
+            called = sample_called_methods(text)
+            impl = {"id": m.group(1) if m else None, "file": e.get("file"), "function": fn[0] if len(fn) == 1 else fn,
+                    "metadata_method": e.get("clientMethod", {}).get("shortName")}
+            mod = {k_: mo.get(k_) for k_ in impl}
+            if called is not None:
+                impl["called_method"] = called
+                mod["called_method"] = [mo.get("called_method")]
+            ctx.traces += 1
+            if impl != mod:
+                ctx.disagree("T3:c14.names", f"{e.get('file')}: model {mod} vs impl {impl}", pl)
+            pn = [p.get("name") for p in e.get("clientMethod", {}).get("parameters", [])]
+            ctx.traces += 1
+            if [x[0] for x in mp.get("params", [])] != pn:
+                ctx.disagree("T3:c14.params", f"{e.get('file')}: model parameter names {[x[0] for x in mp.get('params', [])]} vs metadata {pn}", pl)
+    # ---------------- T2/T3: the raw render (what the metadata is computed on) vs the emitted file (= fix_whitespace(raw))
+    if not collide:
+        t2_raw_renders(ctx, spec, api, opts, out_files, entries, payload)
     # ---------------- materialise, run
     root = genrun.materialise(res)
     try:
